@@ -1151,9 +1151,11 @@ def data_margin(got, want, form, normalised):
             if g != 0:
                 return float("inf")
             continue
-        k = {"RI": 8.0, "MA": 32.0, "DB": 64.0}.get(form, 128.0)
+        # decoding costs a few eps (worst seen on the repaired tree: RI*R 1,
+        # MA 1, DB 10, PRx/SRx 2 eps); three decades of head-room
+        k = {"RI": 1.0e3, "MA": 1.0e3, "DB": 1.0e4}.get(form, 2.0e3)
         if form == "DB":
-            k += 8.0 * abs(math.log(a))
+            k += 1.0e3 * abs(math.log(a))
         if not (math.isfinite(g.real) and math.isfinite(g.imag)):
             return float("inf")
         worst = max(worst, abs(g - w) / (k * EPS * a))
